@@ -332,20 +332,24 @@ Definition fill_af (len : Z) : option PacketAdaptationField :=
           PacketAdaptationField_HasTransportPrivateData := false;
           PacketAdaptationField_HasSplicingCountdown := false |}.
 
-Definition piece_packet (x cc : Z) (start : bool) (piece : list Z) (stuff_value : Z) : spkt :=
+Definition raw_packet (x cc : Z) (err start has_pl : bool) (piece : list Z) (stuff_value : Z) : spkt :=
   let len := Z.of_nat (length piece) in
   let af := fill_af len in
   {| sp_pkt := {| Packet_AdaptationField := af;
                   Packet_Header := {| PacketHeader_ContinuityCounter := cc mod 16;
                                       PacketHeader_HasAdaptationField := negb (len =? 184);
-                                      PacketHeader_HasPayload := true;
+                                      PacketHeader_HasPayload := has_pl;
                                       PacketHeader_PayloadUnitStartIndicator := start;
                                       PacketHeader_PID := x;
-                                      PacketHeader_TransportErrorIndicator := false;
+                                      PacketHeader_TransportErrorIndicator := err;
                                       PacketHeader_TransportPriority := false;
                                       PacketHeader_TransportScramblingControl := 0 |};
                   Packet_Payload := piece |};
      sp_stuff := repeat stuff_value (Z.to_nat (if len <? 183 then 182 - len else 0)) |}.
+
+(* the packet carrying one piece of a unit *)
+Definition piece_packet (x cc : Z) (start : bool) (piece : list Z) (stuff_value : Z) : spkt :=
+  raw_packet x cc false start true piece stuff_value.
 
 (* cut [bytes] into pieces of the given sizes (the last piece takes what is left) *)
 Fixpoint cut (sizes : list nat) (bytes : list Z) : list (list Z) :=
@@ -358,4 +362,11 @@ Fixpoint piece_packets (x cc : Z) (start : bool) (pieces : list (list Z)) (stuff
   match pieces with
   | [] => []
   | pc :: r => piece_packet x cc start pc stuff_value :: piece_packets x (cc + 1) false r stuff_value
+  end.
+
+(* unit u on PID x, cut into pieces of the given sizes, first continuity counter cc, stuffing bytes of value sv *)
+Definition carry (x cc : Z) (u : sunit) (sizes : list nat) (sv : Z) : carried :=
+  match piece_packets x cc true (cut sizes (unit_bytes u)) sv with
+  | p :: r => mk_carried u p r
+  | [] => mk_carried u (piece_packet x cc true [] sv) []
   end.
